@@ -186,6 +186,7 @@ class Trace:
         self.recs = []
         self.seq = 0
         self.scaled = False
+        self.dead = False
         self.dropped = 0
         self.eps = 3e-4 if self.single else 1e-9
         self.ftol = 3e-3 if self.single else 1e-8      # relative tolerance of the float (relational) comparisons
@@ -251,6 +252,8 @@ class Trace:
     def step(self, a):
         """apply one gate; returns False if it was not attempted (magnitude budget)"""
         g = self.g
+        if self.dead:
+            return False
         G = np.asarray(a["G"], dtype=complex)
         simple = a["entry"] == "gate_simple"
         # comparisons up to a positive scalar multiply observation and reference in TLC's 32-bit integers
@@ -301,6 +304,9 @@ class Trace:
                         rec["psi"] = sv or []
                         if sv is None:
                             rec["raw_head"] = [str(x) for x in np.asarray(v).reshape(-1)[:6]]
+                            self.dead = True        # no exact observation to continue from: the trace ends here
+                else:
+                    self.dead = True
                 if (not inplace) and (out is not tn0) and not self.scaled:
                     r0 = self.observe(tn0)
                     sr = snap_vec(r0["v"], self.eps * (1 + self.maxabs)) if r0["v"] is not None else None
@@ -310,6 +316,7 @@ class Trace:
                 ref = U.ref_apply(a["G"], g.dims, list(a["pos"]), self.cur, a["op"], a["which"])
                 if v is None:
                     rec["qd"] = 999990
+                    self.dead = True
                 elif renorm:
                     nr = np.vdot(ref, ref)
                     c = np.vdot(ref, v) / nr if abs(nr) > 0 else 0.0
@@ -533,9 +540,10 @@ def run(ctx):
     fams = ("Choose", "ApplyWired", "ApplySandwich", "ApplySwapped", "ApplySubMpo", "ApplyOpLazy", "Reject", "CheckFacts")
     muts = [("MC_mut_noflip.cfg", "gate_with_auto_swap without flipping the gate for i > j"),
             ("MC_mut_nosort.cfg", "sub-MPO route without re-sorting the gate legs"),
-            ("MC_mut_sandwich.cfg", "dagger sandwich without exchanging the two arrays")]
+            ("MC_mut_sandwich.cfg", "dagger sandwich without exchanging the two arrays"),
+            ("MC_mut_dagger.cfg", "'nonlocal' mode dropping dagger, as before fix 0665402c")]
     if quick:
-        muts = muts[ctx.seed % 3:][:1]
+        muts = muts[ctx.seed % 4:][:1]
     nsim = 140 if quick else 1500
 
     def main_mc():
@@ -559,19 +567,75 @@ def run(ctx):
     if os.environ.get("C06_ONLY_TRACES"):     # development aid (mutation runs against another quimb tree): the
         main_mc = cover_mc = lambda: None     # model runs do not depend on quimb
         mutants = lambda: ["skipped"]         # noqa
-    with concurrent.futures.ThreadPoolExecutor(max_workers=4) as pool:
-        futs = [pool.submit(f) for f in (main_mc, cover_mc, mutants)]
-        fsim = pool.submit(simulated_behaviours, ctx, nsim)
+    pool = concurrent.futures.ThreadPoolExecutor(max_workers=4)
+    futs = [pool.submit(f) for f in (main_mc, cover_mc, mutants)]
+    fsim = pool.submit(simulated_behaviours, ctx, nsim)
+
+    dtypes = ["complex128"] * 7 + ["float64", "complex64", "float32"]
+
+    def walks():
+        recs = []
+        ntr = 0
+        # (the walks do not depend on TLC: they are driven while the TLC runs are busy)
+        # 3. C->S: random walks with exact data, <= 3 gates
+        nwalk = 260 if quick else 4000
+        for k in range(nwalk):
+            g = rng.choice(WALK_GEOMS)
+            dt = dtypes[k % len(dtypes)]
+            routes = routes_for(g)
+            first = random_action(rng, np.random.default_rng(rng.randrange(1 << 30)), _Probe(g, dt), routes)
+            tr = Trace(g, ntr, rng.randrange(1 << 30), dtype=dt, exact=True,
+                       with_gauges=(first is not None and first["entry"] == "gate_simple" and rng.random() < 0.7), source="walk")
+            n = 0
+            tries = 0
+            while n < 3 and tries < 8:
+                tries += 1
+                a = first if (tries == 1 and first is not None) else random_action(tr.rng, tr.nprng, tr, routes)
+                if a is None:
+                    break
+                if tr.step(a):
+                    n += 1
+            recs += tr.recs
+            ntr += 1
+
+        # 4. C->S: longer walks with float data, judged through the numpy transcription of the reference
+        nfl = 40 if quick else 500
+        for k in range(nfl):
+            g = rng.choice(FLOAT_GEOMS)
+            dt = ["complex128", "complex128", "float64", "complex64"][k % 4]
+            tr = Trace(g, ntr, rng.randrange(1 << 30), dtype=dt, exact=False, source="float-walk")
+            tr.cap = 1e30
+            routes = routes_for(g)
+            n = 0
+            tries = 0
+            L = rng.randint(4, 10)
+            while n < L and tries < 3 * L:
+                tries += 1
+                a = random_action(tr.rng, tr.nprng, tr, routes, wild=0.05)
+                if a is None:
+                    break
+                if tr.tn.num_tensors > 40:
+                    break
+                if tr.step(a):
+                    n += 1
+            recs += tr.recs
+            ntr += 1
+
+        # 4b. the real 'reduce-split' route (tensors with three or more other legs)
+        for tr in targeted_traces(rng, ntr, 1 if quick else 12):
+            recs += tr.recs
+            ntr += 1
+        return recs, ntr
+
+    # 2. S->C: simulated behaviours of the model replayed into quimb
+    try:
+        recs, ntr = walks()
         for f in futs:
             f.result()
         ctx.extra["model_selftests"] = futs[2].result()
         behs = fsim.result()
-
-    dtypes = ["complex128"] * 7 + ["float64", "complex64", "float32"]
-    recs = []
-    ntr = 0
-
-    # 2. S->C: simulated behaviours of the model replayed into quimb
+    finally:
+        pool.shutdown(wait=True)
     steps = 0
     for k, b in enumerate(behs):
         tr, done = replay(b, ntr, 1000 * ctx.seed + k, dtypes[k % len(dtypes)])
@@ -581,55 +645,6 @@ def run(ctx):
     ctx.extra["replayed_behaviours"] = len(behs)
     ctx.extra["replayed_steps"] = steps
     ctx.sample({"replayed_behaviour": [{kk: vv for kk, vv in x.items() if kk != "G"} for x in behs[0]]})
-
-    # 3. C->S: random walks with exact data, <= 3 gates
-    nwalk = 260 if quick else 4000
-    for k in range(nwalk):
-        g = rng.choice(WALK_GEOMS)
-        dt = dtypes[k % len(dtypes)]
-        routes = routes_for(g)
-        first = random_action(rng, np.random.default_rng(rng.randrange(1 << 30)), _Probe(g, dt), routes)
-        tr = Trace(g, ntr, rng.randrange(1 << 30), dtype=dt, exact=True,
-                   with_gauges=(first is not None and first["entry"] == "gate_simple" and rng.random() < 0.7), source="walk")
-        n = 0
-        tries = 0
-        while n < 3 and tries < 8:
-            tries += 1
-            a = first if (tries == 1 and first is not None) else random_action(tr.rng, tr.nprng, tr, routes)
-            if a is None:
-                break
-            if tr.step(a):
-                n += 1
-        recs += tr.recs
-        ntr += 1
-
-    # 4. C->S: longer walks with float data, judged through the numpy transcription of the reference
-    nfl = 40 if quick else 500
-    for k in range(nfl):
-        g = rng.choice(FLOAT_GEOMS)
-        dt = ["complex128", "complex128", "float64", "complex64"][k % 4]
-        tr = Trace(g, ntr, rng.randrange(1 << 30), dtype=dt, exact=False, source="float-walk")
-        tr.cap = 1e30
-        routes = routes_for(g)
-        n = 0
-        tries = 0
-        L = rng.randint(4, 10)
-        while n < L and tries < 3 * L:
-            tries += 1
-            a = random_action(tr.rng, tr.nprng, tr, routes, wild=0.05)
-            if a is None:
-                break
-            if tr.tn.num_tensors > 40:
-                break
-            if tr.step(a):
-                n += 1
-        recs += tr.recs
-        ntr += 1
-
-    # 4b. the real 'reduce-split' route (tensors with three or more other legs)
-    for tr in targeted_traces(rng, ntr, 1 if quick else 12):
-        recs += tr.recs
-        ntr += 1
 
     # 5. the numpy transcription of the reference agrees with the specification
     rrecs = ref_records(99 + ctx.seed, 60 if quick else 600, 10 ** 6)
